@@ -478,3 +478,37 @@ func (l *Loop) ExitEdges() (edges [][2]*ssa.BasicBlock) {
 	}
 	return
 }
+
+// BoolKnownAt: Yes if boolean value v is known true in block at (dominated by
+// the true edge of `if v` or the false edge of `if !v`), No if known false.
+func BoolKnownAt(v ssa.Value, at *ssa.BasicBlock) Tri {
+	for b := at; b != nil; b = b.Idom() {
+		idom := b.Idom()
+		if idom == nil {
+			break
+		}
+		ifi, ok := lastIf(idom)
+		if !ok {
+			continue
+		}
+		cond := ifi.Cond
+		neg := false
+		if u, ok := cond.(*ssa.UnOp); ok && u.Op == token.NOT {
+			cond = u.X
+			neg = true
+		}
+		if cond != v {
+			continue
+		}
+		onTrue := idom.Succs[0] == b && len(b.Preds) == 1
+		onFalse := idom.Succs[1] == b && len(b.Preds) == 1
+		if onTrue == onFalse {
+			continue
+		}
+		if onTrue != neg {
+			return Yes
+		}
+		return No
+	}
+	return Maybe
+}
